@@ -7,6 +7,7 @@ import (
 	"os"
 	"path"
 	"path/filepath"
+	"sort"
 	"strings"
 	"testing"
 
@@ -105,6 +106,7 @@ func genC08(t *rapid.T) c08Case {
 	c.Exts = genExts(t, c.Trees[0], 3, rapid.IntRange(1, 3).Draw(t, "name_pool"))
 	for i := range c.Exts {
 		c.Exts[i].PkgsMod = rapid.IntRange(1, 3).Draw(t, "pkgs_mod2")
+		c.Exts[i].FindingsMod = rapid.SampledFrom([]int{0, 0, 1, 2}).Draw(t, "findings_mod")
 		if rapid.Bool().Draw(t, "pred_all") {
 			c.Exts[i].Pred = recext.Pred{Kind: "all"}
 		}
@@ -244,8 +246,13 @@ func propC08(c c08Case) (ev.Outcome, error) {
 				if fmt.Sprint(out.Statuses) != fmt.Sprint(first.Statuses) || out.Status != first.Status {
 					return o, fmt.Errorf("statuses depend on the directory listing order (order %d, ReadDirFile=%v): %v/%v vs %v/%v", i, rdf, out.Statuses, out.Status, first.Statuses, first.Status)
 				}
-				if fmt.Sprint(findingKeys(out)) != fmt.Sprint(findingKeys(first)) {
-					return o, fmt.Errorf("findings depend on the directory listing order: %v vs %v", findingKeys(out), findingKeys(first))
+				// findings: the same multiset (their documented order, (reference, extra), is decided
+				// by checkSorted; findings that tie on both may come in any order)
+				fa, fb := findingKeys(out), findingKeys(first)
+				sort.Slice(fa, func(i, j int) bool { return fmt.Sprint(fa[i]) < fmt.Sprint(fa[j]) })
+				sort.Slice(fb, func(i, j int) bool { return fmt.Sprint(fb[i]) < fmt.Sprint(fb[j]) })
+				if fmt.Sprint(fa) != fmt.Sprint(fb) {
+					return o, fmt.Errorf("findings depend on the directory listing order: %v vs %v", fa, fb)
 				}
 			}
 		}
@@ -272,6 +279,7 @@ func propC08(c c08Case) (ev.Outcome, error) {
 	o.Classes = append(o.Classes, fmt.Sprintf("multi_root_%d", len(c.Trees)))
 	var roots []*scalibrfs.ScanRoot
 	var union []recext.PkgKey
+	var unionFindings []findingKey
 	rootsWithPkgs := 0
 	mkRoot := func(i int, tr memfs.Tree) (*scalibrfs.ScanRoot, error) {
 		return &scalibrfs.ScanRoot{FS: memfs.New(tr, memfs.Options{ReadDirFile: c.ReadDirFile}), Path: ""}, nil
@@ -310,6 +318,7 @@ func propC08(c c08Case) (ev.Outcome, error) {
 			return o, fmt.Errorf("scan panicked: %v", single.Panic)
 		}
 		union = append(union, single.Packages...)
+		unionFindings = append(unionFindings, findingKeys(single)...)
 		if len(single.Packages) > 0 {
 			rootsWithPkgs++
 		}
@@ -325,6 +334,19 @@ func propC08(c c08Case) (ev.Outcome, error) {
 	}
 	if d := diffPkgs(multi.Packages, union); d != "" {
 		return o, fmt.Errorf("scan of %d roots is not the union of the single-root scans: %s", len(c.Trees), d)
+	}
+	// the findings extractors put into their inventories are part of the result as well
+	gotF, wantF := findingKeys(multi), unionFindings
+	sortFK := func(x []findingKey) {
+		sort.Slice(x, func(i, j int) bool { return fmt.Sprint(x[i]) < fmt.Sprint(x[j]) })
+	}
+	sortFK(gotF)
+	sortFK(wantF)
+	if fmt.Sprint(gotF) != fmt.Sprint(wantF) {
+		return o, fmt.Errorf("scan of %d roots reports %d findings of extractors, the single-root scans %d: got %v, want %v", len(c.Trees), len(gotF), len(wantF), gotF, wantF)
+	}
+	if len(wantF) > 0 {
+		o.Classes = append(o.Classes, "multi_root_extractor_findings")
 	}
 	ptr := map[*extractor.Package]bool{}
 	for _, p := range multi.Result.Inventory.Packages {
